@@ -17,7 +17,6 @@ Two workloads, both observing executions of the real (ASan+UBSan) code:
    os.path.realpath for denotation, os.path.normpath for make_relative_to.
 """
 import collections
-import itertools
 import json
 import os
 import random
